@@ -275,12 +275,6 @@ def insert(
     module = block.module
     cfg = block.ir.cfg
 
-    _add_return_edges_for_patch_calls(
-        cache,
-        module,
-        code.cfg,
-    )
-
     if isinstance(block, gtirb.CodeBlock):
         _update_patch_return_edges_to_match(
             cache, block, code.cfg, code.proxies
@@ -295,6 +289,15 @@ def insert(
         remove_block(cache, mid_block)
 
     _add_missing_fallthrough(cache, cfg, end_block)
+
+    # This needs to happen after the block has been split: if the patch calls
+    # the function it is being inserted into, the new return edges must start
+    # at whichever piece of the block ends up holding the return.
+    _add_return_edges_for_patch_calls(
+        cache,
+        module,
+        code.cfg,
+    )
 
     # Stitch in the new blocks to the CFG
     if added_fallthrough:
